@@ -58,8 +58,16 @@ func c14ProbeSet(c *core.Ctx) [][]byte {
 
 var c14Limits = []uint32{0, 3072, 2}
 
-func opFromInt(v int) extOp { return extOp{Attach: v / 100, Pred: (v / 10) % 10, Aliases: v % 10} }
-func opToInt(o extOp) int   { return o.Attach*100 + o.Pred*10 + o.Aliases }
+func opFromInt(v int) extOp {
+	return extOp{Dup: v >= 10000, Attach: (v % 10000) / 100, Pred: (v / 10) % 10, Aliases: v % 10}
+}
+func opToInt(o extOp) int {
+	v := o.Attach*100 + o.Pred*10 + o.Aliases
+	if o.Dup {
+		v += 10000
+	}
+	return v
+}
 
 var c14Cur *treeModel
 
@@ -133,22 +141,24 @@ func c14Check(c *core.Ctx, hist []extOp, probes [][]byte, count func(nontrivial 
 			i++
 		}
 	}
-	// (2) Lookup
+	// (2) Lookup: the node found is the first one in pre-order carrying the name
+	// (several extensions may share a name, as several built-ins do)
 	for _, e := range t.exts {
 		for _, n := range append([]string{e.name}, e.aliases...) {
 			m := mimetype.Lookup(n)
 			if m == nil {
 				return false, "C14/lookup-misses-extension", fmt.Sprintf("history [%s]: Lookup(%q) is nil", t.hist, n)
 			}
-			if m.String() != e.name || m.Extension() != e.ext {
-				return false, "C14/lookup-wrong-node", fmt.Sprintf("history [%s]: Lookup(%q) = %s(%s), registered %s(%s)", t.hist, n, m.String(), m.Extension(), e.name, e.ext)
+			want := t.find(n)
+			if m.String() != want.name || m.Extension() != want.ext {
+				return false, "C14/lookup-wrong-node", fmt.Sprintf("history [%s]: Lookup(%q) = %s(%s), the first node of that name in the tree is %s(%s)", t.hist, n, m.String(), m.Extension(), want.name, want.ext)
 			}
-			if m.Parent() == nil || m.Parent().String() != e.parent {
+			if m.Parent() == nil || m.Parent().String() != want.parent.name || m.Parent().Extension() != want.parent.ext {
 				ps := "<nil>"
 				if m.Parent() != nil {
-					ps = m.Parent().String()
+					ps = m.Parent().String() + "(" + m.Parent().Extension() + ")"
 				}
-				return false, "C14/lookup-wrong-parent", fmt.Sprintf("history [%s]: Lookup(%q).Parent() = %s, attachment point was %s", t.hist, n, ps, e.parent)
+				return false, "C14/lookup-wrong-parent", fmt.Sprintf("history [%s]: Lookup(%q).Parent() = %s, attachment point was %s(%s)", t.hist, n, ps, want.parent.name, want.parent.ext)
 			}
 			if !m.Is(n) {
 				return false, "C14/lookup-not-Is", fmt.Sprintf("history [%s]: Lookup(%q) does not satisfy Is(%q)", t.hist, n, n)
@@ -228,10 +238,14 @@ func c14FreshEval(cs *core.Case) (bool, string, string) {
 func c14Fresh(c *core.Ctx, args []string) int {
 	var b bytes.Buffer
 	prev := ""
+	var handle1 *mimetype.MIME
 	for k, a := range args {
 		v, _ := strconv.Atoi(a)
 		op := opFromInt(v)
 		name, ext := fmt.Sprintf("x/e%d", k+1), fmt.Sprintf(".e%d", k+1)
+		if op.Dup {
+			name = "x/dup"
+		}
 		var aliases []string
 		for i := 0; i < op.Aliases; i++ {
 			aliases = append(aliases, fmt.Sprintf("x/e%d-alias%d", k+1, i+1))
@@ -248,8 +262,17 @@ func c14Fresh(c *core.Ctx, args []string) int {
 			} else {
 				mimetype.Lookup(prev).Extend(pred, name, ext, aliases...)
 			}
+		case "handle-1":
+			if handle1 == nil {
+				mimetype.Extend(pred, name, ext, aliases...)
+			} else {
+				handle1.Extend(pred, name, ext, aliases...)
+			}
 		default:
 			mimetype.Lookup(extAttach[op.Attach]).Extend(pred, name, ext, aliases...)
+		}
+		if k == 0 {
+			handle1 = mimetype.Lookup(name)
 		}
 		prev = name
 	}
@@ -358,6 +381,43 @@ func c14Run(c *core.Ctx) {
 					if !ok {
 						cs.Ints = []int{opToInt(o1), opToInt(o2), opToInt(o3)}
 						c.Check(cs)
+					}
+				}
+			}
+		}
+		hist = nil
+	}
+	// (3b) a held handle and shared names: ext1 under A (name x/dup), ext2 under B
+	// (same name, possibly earlier in pre-order), ext3 registered through the
+	// handle to ext1 kept since its registration
+	{
+		at := []int{0, 2, 3, 7, 4}
+		pr := []int{1, 2, 3, 4}
+		for _, a1 := range at {
+			for _, a2 := range at {
+				if !c.Next() || c.Expired() {
+					continue
+				}
+				for _, p1 := range pr {
+					for _, p2 := range pr {
+						for _, p3 := range pr {
+							for _, dup := range []bool{true, false} {
+								hist = []extOp{{Attach: a1, Pred: p1, Dup: dup}, {Attach: a2, Pred: p2, Dup: dup, Aliases: 1}, {Attach: 9, Pred: p3}}
+								c.R.States++
+								ok, _, _ := c14Check(c, hist, probes, func(acc bool) {
+									c.R.Transitions++
+									c.R.Evals++
+									c.R.Traces++
+									if acc {
+										c.R.Nontrivial++
+									}
+								})
+								if !ok {
+									cs.Ints = []int{opToInt(hist[0]), opToInt(hist[1]), opToInt(hist[2])}
+									c.Check(cs)
+								}
+							}
+						}
 					}
 				}
 			}
